@@ -14,7 +14,7 @@ import (
 func init() {
 	register(&Prop{
 		ID:          "C18",
-		Decided:     "(1) guarded-by: the mutable shared fields of Stream, the five windows, Watermark, cep.Engine, analyticFieldEngine, ExprBridge, FunctionRegistry, MemoryTableSource and tableStore are accessed under their mutex in all API-reachable code (writes exclusively), no field is accessed both through sync/atomic and plainly, and the lock-acquisition graph is acyclic with no re-acquisition of a held lock; (2) no user sink is invoked, directly or through a function that runs sinks synchronously, while a lock is held; no blocking channel operation without a cancel/timeout/default alternative is performed under a lock; (3) each go statement: blocking loops have a cancellation case, blocking operations have an alternative, WaitGroup.Add precedes the go (or is done by the registered adder), goroutines that can run sinks are joined by Stop; Start's stopped-check and lifecycle.Add are serialised with Stop's flag under startMu; (4) Stop: the CAS on stopped dominates close(done) (idempotent, close-once), teardown order close(done) -> Window.Stop -> dataChan=nil -> waitLifecycle -> cep.Stop -> Flush -> flush delivery -> tables.closeAll, the input channel is never closed, initChan closes are probe-guarded under the window lock; (5) Emit after Stop: every blocking send on the input buffer has a done arm; (6) panic containment: every sink invocation and processItem run under a deferred recover. Also: consumer loops of package stream hand each received item to a function with its own deferred recover (a recover around the loop ends it at the first panic); Process starts the goroutine that Start counted in lifecycle on every path (or took the branch where the condition is false). Also: a mutex acquired in a function that runs under a deferred recover (its own or a synchronous caller's) and held across a call that can run user-supplied code (expr-lang programs, registered functions, callbacks) is released by a deferred Unlock (locks/released-on-recovered-panic): a contained panic cannot leave it locked. Also: the period of every time.NewTicker in the module is shown positive from the code (positive constants, clamps and guards against a positive bound, fields all of whose stores store such values, parameters all of whose arguments are such values; integer division is not positive) — a zero or negative period panics in a goroutine that has no recover (fnsafe/ticker-period-positive).",
+		Decided:     "(1) guarded-by: the mutable shared fields of Stream, the five windows, Watermark, cep.Engine, analyticFieldEngine, ExprBridge, FunctionRegistry, MemoryTableSource and tableStore are accessed under their mutex in all API-reachable code (writes exclusively), no field is accessed both through sync/atomic and plainly, and the lock-acquisition graph is acyclic with no re-acquisition of a held lock; (2) no user sink is invoked, directly or through a function that runs sinks synchronously, while a lock is held; no blocking channel operation without a cancel/timeout/default alternative is performed under a lock; (3) each go statement: blocking loops have a cancellation case, blocking operations have an alternative, WaitGroup.Add precedes the go (or is done by the registered adder), goroutines that can run sinks are joined by Stop; Start's stopped-check and lifecycle.Add are serialised with Stop's flag under startMu; (4) Stop: the CAS on stopped dominates close(done) (idempotent, close-once), teardown order close(done) -> Window.Stop -> dataChan=nil -> waitLifecycle -> cep.Stop -> Flush -> flush delivery -> tables.closeAll, the input channel is never closed, initChan closes are probe-guarded under the window lock; (5) Emit after Stop: every blocking send on the input buffer has a done arm; (6) panic containment: every sink invocation and processItem run under a deferred recover. Also: consumer loops of package stream hand each received item to a function with its own deferred recover (a recover around the loop ends it at the first panic); Process starts the goroutine that Start counted in lifecycle on every path (or took the branch where the condition is false). Also: a mutex acquired in a function that runs under a deferred recover (its own or a synchronous caller's) and held across a call that can run user-supplied code (expr-lang programs, registered functions, callbacks) is released by a deferred Unlock (locks/released-on-recovered-panic): a contained panic cannot leave it locked. Also: the period of every time.NewTicker in the module is shown positive from the code (positive constants, clamps and guards against a positive bound, fields all of whose stores store such values, parameters all of whose arguments are such values; integer division is not positive) — a zero or negative period panics in a goroutine that has no recover (fnsafe/ticker-period-positive). Also: for each of Emit/EmitSync/AddSink/GetStats/TriggerWindow/Stop and for every goroutine the engine starts, every synchronous call chain to user-supplied code that sees rows (expr-lang programs, registered functions' Execute/Add/Result/Apply, custom table sources, sinks) passes a function with a deferred recover (flow/no-panic-escapes); the Stop stages may be carried out by a helper of the same package, whose internal order is then checked too.",
 		NotDecided:  "absence of data races in general (this is a lockset argument over a type-based lock abstraction, not a happens-before proof), bounded Stop latency, goroutine counts, the behaviour of the grace timeout, window trigger goroutines and Watermark.updateLoop being cancelled but not joined by Stop (they do not run sinks).",
 		Assumptions: []string{"lock identity is (struct type, mutex field): two objects of one type are not distinguished"},
 		Run:         runC18,
@@ -136,6 +136,7 @@ func runC18(a *A) {
 			a.Und("send-has-done-arm", token.NoPos, "no send on the input buffer found in the strategies")
 		}
 	})
+	a.Rule("flow/no-panic-escapes", 10, func() { a.ruleNoPanicEscapes() })
 	a.Rule("fnsafe/ticker-period-positive", 8, func() { a.rulePositiveTickerPeriod() })
 	a.Rule("locks/released-on-recovered-panic", 8, func() { a.ruleLockReleasedOnRecoveredPanic() })
 	a.Rule("flow/panic-containment", 4, func() {
@@ -347,13 +348,21 @@ func (a *A) ruleStopSequence() {
 	// flush goes through the same projection as live matches
 	pc := a.Method("stream", "Stream", "projectCep")
 	okProj := false
-	allInstrs(fn, func(in ssa.Instruction) {
-		if stages[6].match(in) {
-			for _, l := range phiLeaves(callCommon(in).Args[1]) {
-				if c, ok := l.(*ssa.Call); ok && c.Call.StaticCallee() == pc {
-					okProj = true
+	scan := func(f *ssa.Function) {
+		allInstrs(f, func(in ssa.Instruction) {
+			if stages[6].match(in) {
+				for _, l := range phiLeaves(callCommon(in).Args[1]) {
+					if c, ok := l.(*ssa.Call); ok && c.Call.StaticCallee() == pc {
+						okProj = true
+					}
 				}
 			}
+		})
+	}
+	scan(fn)
+	allInstrs(fn, func(in ssa.Instruction) { // or in a helper of Stop (one level)
+		if callee := staticCallee(in); callee != nil && callee.Pkg == fn.Pkg && callee.Blocks != nil {
+			scan(callee)
 		}
 	})
 	a.Check(okProj, fname(fn)+"#flush-projected", fn.Pos(), "flushed matches go through projectCep like live matches", "flushed MATCH_RECOGNIZE rows are not projected by projectCep")
@@ -1183,4 +1192,156 @@ func (a *A) ruleAllocBoundedByData() int {
 		})
 	}
 	return n
+}
+
+// ---------------------------------------------------------------- panics do not escape
+
+// ruleNoPanicEscapes: code supplied by the user of the library (expression programs with custom
+// functions, registered functions, custom table sources, callbacks and sinks) can panic. A panic that
+// unwinds out of Emit/EmitSync/AddSink/GetStats/TriggerWindow/Stop reaches the caller, one that
+// unwinds out of a goroutine the engine started kills the process. For each of these roots, every
+// synchronous call chain from the root to a call of user code passes a function with a deferred
+// recover.
+func (a *A) ruleNoPanicEscapes() int {
+	tableSrc := a.Iface("stream", "TableSource")
+	sinkCalls := map[ssa.CallInstruction]bool{}
+	for _, c := range a.sinkInfo().calls {
+		sinkCalls[c] = true
+	}
+	userSite := func(c ssa.CallInstruction) string {
+		cc := c.Common()
+		if sinkCalls[c] {
+			return "a user sink"
+		}
+		// other function values (window callbacks, cancel functions) are engine code: followed through
+		// the call graph, not user code themselves
+		if cc.IsInvoke() || cc.StaticCallee() != nil {
+			// construction-time methods (New, Clone, Validate, Init) see no row: a function that panics
+			// there fails when the query is set up; the rule is about rows
+			if cc.IsInvoke() {
+				switch cc.Method.Name() {
+				case "New", "Clone", "Validate", "Init":
+					return ""
+				}
+			}
+			if w := directUserCall(a, cc); w != "" {
+				return w
+			}
+		}
+		if cc.IsInvoke() {
+			if nt, ok := types.Unalias(cc.Value.Type()).(*types.Named); ok && types.Identical(nt.Underlying(), tableSrc) {
+				return "the custom table source's " + cc.Method.Name()
+			}
+		}
+		return ""
+	}
+	// roots
+	type root struct {
+		fn   *ssa.Function
+		what string
+	}
+	var roots []root
+	S := a.Named("", "Streamsql")
+	for _, nm := range []string{"Emit", "EmitSync", "AddSink", "GetStats", "TriggerWindow", "Stop"} {
+		if f := a.methodOf(S, nm); f != nil {
+			roots = append(roots, root{f, "the API call Streamsql." + nm})
+		} else {
+			a.anchorFail("Streamsql.%s not found", nm)
+		}
+	}
+	seenGo := map[*ssa.Function]bool{}
+	for _, fn := range a.ModFuncs {
+		if fn.Blocks == nil {
+			continue
+		}
+		allInstrs(fn, func(in ssa.Instruction) {
+			g, ok := in.(*ssa.Go)
+			if !ok {
+				return
+			}
+			var targets []*ssa.Function
+			if sc := g.Call.StaticCallee(); sc != nil {
+				targets = append(targets, sc)
+			} else if node := a.CG().Nodes[fn]; node != nil {
+				for _, e := range node.Out {
+					if e.Site == ssa.CallInstruction(g) && e.Callee != nil {
+						targets = append(targets, e.Callee.Func)
+					}
+				}
+			}
+			for _, t := range targets {
+				if a.fnInModule(t) && t.Blocks != nil && !seenGo[t] {
+					seenGo[t] = true
+					roots = append(roots, root{t, "the goroutine " + fname(t) + " started at " + a.pos(g.Pos())})
+				}
+			}
+		})
+	}
+	n := 0
+	for _, r := range roots {
+		n++
+		type st struct {
+			f   *ssa.Function
+			rec bool
+		}
+		seen := map[st]bool{}
+		var chain []string
+		var bad string
+		var badPos token.Pos
+		var dfs func(f *ssa.Function, rec bool)
+		dfs = func(f *ssa.Function, rec bool) {
+			if bad != "" || f.Blocks == nil {
+				return
+			}
+			rec = rec || hasRecover(f)
+			if seen[st{f, rec}] {
+				return
+			}
+			seen[st{f, rec}] = true
+			chain = append(chain, fname(f))
+			defer func() { chain = chain[:len(chain)-1] }()
+			node := a.CG().Nodes[f]
+			for _, b := range f.Blocks {
+				for _, in := range b.Instrs {
+					ci, ok := in.(ssa.CallInstruction)
+					if !ok {
+						continue
+					}
+					if _, isGo := in.(*ssa.Go); isGo {
+						continue
+					}
+					if w := userSite(ci); w != "" && !rec && bad == "" {
+						bad = strings.Join(chain, " -> ") + " -> " + w
+						badPos = in.Pos()
+						return
+					}
+					if sc := ci.Common().StaticCallee(); sc != nil {
+						if a.fnInModule(sc) {
+							dfs(sc, rec)
+						}
+						continue
+					}
+					if node != nil {
+						for _, e := range node.Out {
+							if e.Site == ci && e.Callee != nil && a.fnInModule(e.Callee.Func) {
+								dfs(e.Callee.Func, rec)
+							}
+						}
+					}
+				}
+			}
+		}
+		dfs(r.fn, false)
+		a.Check(bad == "", "no-panic-escapes@"+fname(r.fn), firstPos(badPos, r.fn.Pos()),
+			"every synchronous call chain from "+r.what+" to user-supplied code passes a deferred recover",
+			"a panic in user-supplied code escapes "+r.what+": "+bad+" — no function on this chain has a deferred recover")
+	}
+	return n
+}
+
+func firstPos(p, q token.Pos) token.Pos {
+	if p != token.NoPos {
+		return p
+	}
+	return q
 }
